@@ -12,6 +12,7 @@ package main
 //   (race ID units  (pkg NAME)|(new UNITS) NG (ops (pi "s")|(pf "s")|(fsi N)|(fli N)|(fsf F)|(flf F) ...))
 //   (race ID steps  NG PLUGIN (calls ...))                 the c11steps plugin and call syntax
 //   (race ID errs|structs ...), the (cs) operation                         see c13_race2.go
+//   (race ID lazy unlinked NG OBJECT (ops (gd fwd|rev)|(u V)|...))         see c13_race3.go
 //   observation: (t ID same N) | (t ID (diff (G I GOT WANT)...)) ; stderr carries "@@trial ID" /
 //   "@@end ID" markers around the race detector's reports.
 
@@ -181,6 +182,9 @@ func runRaceTrial(p *sx.Node) *sx.Node {
 	fmt.Fprintf(os.Stderr, "@@trial %s\n", id)
 	defer fmt.Fprintf(os.Stderr, "@@end %s\n", id)
 	if r := runRaceTrial2(id, p); r != nil {
+		return r
+	}
+	if r := runRaceTrial3(id, p); r != nil {
 		return r
 	}
 	switch p.List[2].Atom {
@@ -400,6 +404,9 @@ func init() {
 						}
 					}
 					emit(sx.L(sx.A("race"), next(), sx.A("schema"), sx.A(kind), sx.I(int64(pick(r, ngs))), s, c13SchemaOps(r, s, depth, 3+r.Intn(4))))
+				}
+				if i%8 == 5 { // c13_race3.go: first use of a rebuilt, NEVER LINKED object tree (defaults decoded lazily)
+					emit(c13GenLazy(r, next(), pick(r, ngs)))
 				}
 			}
 		},
